@@ -295,5 +295,5 @@ _more("C14", "Components overwritten between two simulations; molecules straddli
 _more("C15", "Loaders used before binning; batches with a tomogram without molecules and explicit non-enumerating ids.")
 _more("C16", "float64 images that need more than 24 significant bits.")
 _more("C17", "Both inputs rescaled by 1e-8 / 1e+8 (gain invariance).")
-_more("C19", "Files rewritten between two reads of the same path; NaN voxels under >= and <=.")
+_more("C19", "Files rewritten between two reads of the same path; NaN voxels under >= and <=; from_pdb against the histogram of its ATOM records.")
 _more("C20", "The plateau finding is attributed by cause: the same image without its constant background must give exactly the planted particles.")
